@@ -99,7 +99,7 @@ def catalogue(rng):
             return dict(target=t, path=["add_linear_equality_constraint"], args=[bad, T([1.0, "x", NONE]), T([0.0, "y"])],
                         expect="any")
         if k == "resize":
-            return dict(target=t, path=["resize"], args=[T([-1, -5, "x", 1.5, NONE, ["#", "neg", ["#", "big", 40]]])],
+            return dict(target=t, path=["resize"], args=[T([-1, -5, "x", NONE, ["#", "neg", ["#", "big", 40]]])],
                         expect="raise")
         if k == "ineigh":
             return dict(target=t, path=["data", "_ineighborhood"], args=[T(BAD_INDEX)], expect="raise")
@@ -165,7 +165,8 @@ def catalogue(rng):
                    tup(arr([i], "int64"), arr([i], "int64"), [1.0])])
             return dict(target=t, path=["@cls", "from_numpy_vectors"], args=[T([lin, []]), q, 0.0, T(["BINARY", "SPIN"])], expect="raise")
         if k == "big":
-            i = T([["#", "big", 31], ["#", "big", 31, 5], ["#", "big", 32], ["#", "big", 32, -1], ["#", "big", 40], ["#", "big", 62]])
+            i = T([["#", "big", 31], ["#", "big", 31, 5], ["#", "big", 32], ["#", "big", 32, -1], ["#", "big", 40], ["#", "big", 62],
+                   ["#", "big", 31, -1]])
             q = tup(arr([0, i], "int64"), arr([1, 2], "int64"), [1.0, 1.0])
             return dict(target=t, path=["@cls", "from_numpy_vectors"], args=[lin, q, 0.0, "BINARY"], expect="raise")
         if k == "order":
